@@ -93,7 +93,7 @@ func (n *AlertNode) Build(a *pipeline.AlertNode) (ast.Node, error) {
 		}
 
 		if len(h.ToTemplatesList) != 0 {
-			n.Dot("toTemplates", h.ToTemplatesList)
+			n.Dot("toTemplates", args(h.ToTemplatesList)...)
 		}
 	}
 
